@@ -538,6 +538,10 @@ def _normalisation(cx, init, make, tables):
     make, _u2 = inlined(cx.repo.modules[REL], make, nested=True)
     if _u1 or _u2:
         cx.note(f"R15e: constructor / renderer interpreted with {sorted(set(_u1) | set(_u2))} expanded in place")
+    # the local that holds the clause row of the requested style, whatever it is called
+    row_defs = [st_.targets[0].id for st_ in walk_local(make) if isinstance(st_, ast.Assign) and len(st_.targets) == 1 and isinstance(st_.targets[0], ast.Name)
+                and norm(st_.value) == "self._SQL_CLAUSES[placeholders_type]"]
+    row_name = row_defs[0] if len(row_defs) == 1 else "sql_clauses"
     for op in ops:
         for kind, empty in kinds:
             n_cases += 1
@@ -597,7 +601,7 @@ def _normalisation(cx, init, make, tables):
                         cx.ob("R15e", make, False, f"{label}: emission ends with {o.how} {o.value}", stmt=f"emit {label}")
                         continue
                     events = [e for e in o.env.get("@events", ()) if e[0] == "values_list"]
-                    text = o.value
+                    text = _canon_row(o.value, row_name)
                     if not isinstance(text, (C, S)):
                         # the interpreter lost the emitted text (a call it does not follow): no verdict
                         raise AnalysisError("R15e", f"{REL}::SqlFieldValCondition.make_text_update_values", f"{label}: the emitted text is not determined ({text!r})")
@@ -625,7 +629,7 @@ def _normalisation(cx, init, make, tables):
     cx.counts["R15e:abstract cases"] = n_cases
     cx.counts["finite_interpreter_steps"] = it.steps
     # sql_clauses is the table row of the requested style
-    d = [v for _, v in assignments(make, "sql_clauses")]
+    d = [v for _, v in assignments(make, row_name)]
     ok = len(d) == 1 and norm(d[0]) == "self._SQL_CLAUSES[placeholders_type]"
     cx.ob("R15b", make, ok, "clause row is selected by the placeholder style" if ok else "sql_clauses is not self._SQL_CLAUSES[placeholders_type]", stmt="sql_clauses")
     # static conditions: text is the given string, nothing bound
@@ -638,6 +642,22 @@ def _normalisation(cx, init, make, tables):
         for o2 in it.run(make.body, env2):
             ok = o2.how == "return" and isinstance(o2.value, C) and o2.value.v.strip() == "a.id = b.id" and not o2.env.get("@events")
             cx.ob("R15e", make, ok, "static condition: the given text, nothing bound" if ok else f"static condition emits {o2.value!r}", stmt="static condition")
+
+
+def _canon_row(v, row_name):
+    """symbolic texts mention the clause-row local by name: read it as `sql_clauses`"""
+    if row_name == "sql_clauses":
+        return v
+
+    def part(p_):
+        if isinstance(p_, tuple):
+            if len(p_) == 3 and p_[0] == "sub" and p_[1] == row_name:
+                return ("sub", "sql_clauses", p_[2])
+            return tuple(part(x_) for x_ in p_)
+        if isinstance(p_, S):
+            return S(tuple(part(x_) for x_ in p_.parts))
+        return p_
+    return part(v) if isinstance(v, S) else v
 
 
 def _is_in_clause(text, fop):
